@@ -334,6 +334,7 @@ def c06(H):
         v.append({"kind": "kill_shutdown_hangs", "detail": f"{[(o['thread'], o['op']) for o in hung]} never returned although it "
                   f"must not wait for tasks; blocked: {blocked_summary(H)}; crashes {H.task_crashes}", "where": where_sig(H) + _crash_sig(H)})
         return v
+    other_deaths = any(p["death"] and p["death"].get("by") != "kill_process_tree" for p in H.procs)
     for tok, f in H.futures.items():
         if f["state"] not in DONE:
             v.append({"kind": "future_dropped", "detail": f"future {tok} left {f['state']} after the forced shutdown; blocked {blocked_summary(H)}; crashes {H.task_crashes}", "where": where_sig(H) + _crash_sig(H)})
@@ -341,7 +342,12 @@ def c06(H):
         if f["state"] != "FINISHED":
             continue
         o = f["outcome"]
-        if is_exc(o, "ShutdownExecutorError") or is_broken_exc(o):
+        if is_exc(o, "ShutdownExecutorError"):
+            continue
+        if is_broken_exc(o):
+            if not other_deaths:
+                v.append({"kind": "broken_instead_of_shutdown_error", "detail": f"future {tok} failed with {o[1]['type']} although "
+                          f"no worker died other than through the forced shutdown", "where": "broken"})
             continue
         ok, why = own_outcome(tok, f)
         if not ok:
@@ -369,21 +375,204 @@ def c07(H):
                 v.append({"kind": "wrong_outcome", "detail": f"future {tok}: {why}", "where": f["spec"]["kind"]})
             if cnt.get(tok, 0) != 1 and f["spec"]["kind"] in ("echo", "gate", "big", "bigarg", "raise", "unp_res"):
                 v.append({"kind": "not_exactly_once", "detail": f"task {tok} executed {cnt.get(tok, 0)} times", "where": "exec"})
-    bad = [(p["pid"], p["exitcode"]) for p in H.procs if p["exitcode"] not in (0, None)]
+    # (a worker spawned by a resize that races with another thread's shutdown() of the same singleton finds the queues
+    #  closed and exits with status 1: that is not an idle-timeout exit and no pool is reported broken - not C07's business)
+    sd = [o["start"] for o in H.ops if o["op"][0] in ("shutdown", "exit")]
+    t_sd = min(sd) if sd else 10 ** 9
+    bad = [(p["pid"], p["exitcode"]) for p in H.procs if p["exitcode"] not in (0, None) and p["spawn_step"] < t_sd]
     if bad:
         v.append({"kind": "timeout_exit_reported_as_crash", "detail": f"worker exit codes {bad}; {H.child_errors[:2]}", "where": "exitcode"})
     return v
 
 
 # ----------------------------------------------------------------------------- C08
-def c08(H, bound):
+def _get_ops(H):
+    """(start, end, max_workers) of every get_reusable_executor call, including the implicit one made by a
+    thread's first submit/hold/map/probe when it has not called get before (it uses the config's arguments)."""
+    out = []
+    seen_get = set()
+    for o in sorted(H.ops, key=lambda o: (o["thread"], o["k"])):
+        name = o["op"][0]
+        if name == "get":
+            out.append((o["start"], o.get("end"), o["op"][1]["max_workers"]))
+            seen_get.add(o["thread"])
+        elif name in ("submit", "hold", "map", "probe") and o["thread"] not in seen_get:
+            out.append((o["start"], o.get("end"), H.case["config"]["max_workers"]))
+            seen_get.add(o["thread"])
+    return out
+
+
+def bound_at(H, step):
+    """Largest max_workers in force at `step` since the last completed resize (plain executor: its max_workers)."""
+    cfg = H.case["config"]
+    if cfg["executor"] == "plain":
+        return cfg["max_workers"]
+    gets = _get_ops(H)
+    cands = []
+    ended = [(s0, e, m) for (s0, e, m) in gets if e is not None and e < step]
+    if ended:
+        last = max(ended, key=lambda x: x[1])
+        # calls that overlapped the last-completed one are not ordered with it by the observer: take them all
+        cands += [m for (s0, e, m) in ended if e >= last[0]]
+    cands += [m for (s0, e, m) in gets if s0 <= step and (e is None or e >= step)]
+    if not cands:
+        cands.append(cfg["max_workers"])
+    return max(cands)
+
+
+def c08(H, bound=None):
     v = []
+    if H.verdict not in ("quiescent", "livelock"):
+        return v
     for step, nb, nalive in H.concurrency_samples:
-        if nb > bound:
-            v.append({"kind": "too_many_concurrent_bodies", "detail": f"{nb} task bodies executing at step {step}, max_workers bound {bound}", "where": "bodies"})
+        b = bound if bound is not None else bound_at(H, step)
+        if nb > b:
+            v.append({"kind": "too_many_concurrent_bodies", "detail": f"{nb} task bodies executing at step {step}, "
+                      f"largest max_workers in force {b}", "where": "bodies"})
             break
-    for step, kind, data in H.events:
-        pass
-    if H.max_alive_workers > bound:
-        v.append({"kind": "too_many_workers", "detail": f"{H.max_alive_workers} worker processes alive at once, bound {bound}", "where": "workers"})
+    for step, where_, nreg, mw, oid in H.reg_samples:
+        b = bound if bound is not None else bound_at(H, step)
+        extra = 1 if where_ == "spawn" else 0     # sampled inside p.start(): the process is registered right after
+        if nreg + extra > b:
+            v.append({"kind": "too_many_workers_registered", "detail": f"{nreg + extra} workers registered at step {step} "
+                      f"({where_}), largest max_workers in force {b}", "where": "registered"})
+            break
+    return v
+
+
+def c08_delivery(H):
+    """At gate-open time (long after everything settled) exactly max_workers gate bodies are executing."""
+    v = []
+    if H.verdict != "quiescent":
+        return v
+    for g in H.gate_open_obs:
+        exs = g["executors"]
+        if len(exs) != 1 or exs[0]["broken"] or exs[0]["shutdown"]:
+            continue
+        mw = exs[0]["max_workers"]
+        if g["unfinished_gates"] < mw:
+            continue
+        if g["bodies"] != mw:
+            v.append({"kind": "parallelism_not_delivered" if g["bodies"] < mw else "too_many_concurrent_bodies",
+                      "detail": f"{g['unfinished_gates']} long tasks pending on a healthy executor with max_workers={mw}, "
+                                f"but {g['bodies']} bodies executing when everything had settled (workers alive {g['alive']}, "
+                                f"registered {exs[0]['registered']})", "where": "delivery"})
+    return v
+
+
+# ----------------------------------------------------------------------------- C09
+def c09(H):
+    v = []
+    if H.verdict != "quiescent":
+        return liveness(H) if H.verdict == "livelock" else v
+    single = len([ops for ops in H.case["program"] if any(op[0] != "sleep" and op[0] != "open_gate" for op in ops)]) == 1
+    created = None      # (timeout, init) the current instance was created with (sequential model)
+    max_id = -1
+    for g in H.get_log:
+        healthy_before = g["prev_flags"] is not None and not any(g["prev_flags"])
+        if g["same"] and g["prev_flags"] is not None and any(g["prev_flags"]):
+            v.append({"kind": "dead_executor_returned", "detail": f"the previous instance was (broken, shutdown)={g['prev_flags']} "
+                      f"when the call began and was returned again", "where": "same"})
+        if single:
+            kw = (g["timeout_kw"], g["init_kw"] if not isinstance(g["init_kw"], list) else tuple(g["init_kw"]))
+            allow = g["reuse"] is True or (g["reuse"] == "auto" and created == kw)
+            if g["prev_flags"] is None:
+                expect_same = None
+            else:
+                expect_same = healthy_before and allow
+            if expect_same is True and not g["same"] and not any(g["prev_flags_at_return"] or (False,)):
+                v.append({"kind": "healthy_instance_not_reused", "detail": f"previous instance healthy, reuse={g['reuse']} "
+                          f"allowed it (created with {created}, requested {kw}) but a new instance was returned", "where": "identity"})
+            if expect_same is False and g["same"]:
+                v.append({"kind": "instance_reused_against_rule", "detail": f"reuse={g['reuse']}, previous created with {created}, "
+                          f"requested {kw}, previous flags {g['prev_flags']}: the same instance was returned", "where": "identity"})
+            if not g["same"]:
+                created = kw
+            if g["max_workers_at_return"] != g["requested"]:
+                v.append({"kind": "wrong_size", "detail": f"requested max_workers={g['requested']}, executor has "
+                          f"{g['max_workers_at_return']} at return", "where": "size"})
+        if not g["same"]:
+            if g["ids_before"] and g["executor_id"] <= max(g["ids_before"]):
+                v.append({"kind": "executor_id_not_increasing", "detail": f"new instance id {g['executor_id']} after ids {g['ids_before']}", "where": "id"})
+            if g["prev_workers_alive_at_return"]:
+                v.append({"kind": "previous_instance_not_shut_down", "detail": f"a new instance was returned while workers "
+                          f"{g['prev_workers_alive_at_return']} of the previous one were still alive", "where": "prev_alive"})
+    return v
+
+
+def c09_work(H):
+    """Every task submitted on an executor obtained from get_reusable_executor completes with its own outcome
+    (race profile: no crashes, no shutdowns in the program)."""
+    v = []
+    if H.verdict != "quiescent":
+        return v
+    for o in H.ops:
+        if o["op"][0] == "submit" and o["outcome"] and o["outcome"][0] == "raise":
+            v.append({"kind": "submit_refused", "detail": f"thread {o['thread']} obtained an executor from get_reusable_executor "
+                      f"and its submit raised {o['outcome'][1]['type']}: {o['outcome'][1]['str'][:200]}", "where": o["outcome"][1]["type"]})
+    for tok, f in H.futures.items():
+        if f["state"] == "FINISHED":
+            ok, why = own_outcome(tok, f)
+            if not ok:
+                v.append({"kind": "wrong_outcome", "detail": f"future {tok}: {why}", "where": f["spec"]["kind"]})
+    return v
+
+
+# ----------------------------------------------------------------------------- C10
+def _window_disturbed(H, start, end):
+    """Did a worker time out or die between start and end (steps)?"""
+    for st_, kind, data in H.events:
+        if st_ < start or st_ > end:
+            continue
+        if kind == "death":
+            return True
+        if kind == "fire" and data.get("pid") != 1000:
+            return True
+    return False
+
+
+def c10(H):
+    v = []
+    if H.verdict == "livelock":
+        return liveness(H)
+    if H.verdict != "quiescent":
+        return v
+    hung = [o for o in H.ops if o["op"][0] == "get" and o["outcome"] is None]
+    if hung:
+        v.append({"kind": "resize_hangs", "detail": f"get_reusable_executor never returned: {[(o['thread'], o['op'][1]) for o in hung]}; "
+                  f"blocked {blocked_summary(H)}; crashes {H.task_crashes}", "where": where_sig(H) + _crash_sig(H)})
+        return v
+    faults = any(p["death"] for p in H.procs)
+    if not faults:
+        for tok, f in H.futures.items():
+            if f["state"] not in DONE:
+                v.append({"kind": "future_pending", "detail": f"future {tok} never resolved; blocked {blocked_summary(H)}", "where": where_sig(H)})
+            elif f["state"] == "FINISHED":
+                ok, why = own_outcome(tok, f)
+                if not ok:
+                    v.append({"kind": "wrong_outcome", "detail": f"future {tok}: {why}", "where": f["spec"]["kind"]})
+    single = len([ops for ops in H.case["program"] if any(op[0] not in ("sleep", "open_gate") for op in ops)]) == 1
+    for g in H.get_log:
+        if not g["same"] or g["prev_max_workers"] is None:
+            continue
+        if single and g["max_workers_at_return"] != g["requested"]:
+            v.append({"kind": "wrong_size", "detail": f"requested {g['requested']}, _max_workers {g['max_workers_at_return']}", "where": "size"})
+        if not g["prev_started"] or not single:
+            continue
+        if any(g["flags_at_return"]) or _window_disturbed(H, g["start"], g["end"]):
+            continue
+        new = g["requested"]
+        if new == g["prev_max_workers"]:
+            continue          # the statement is about a *different* max_workers (an equal one is a no-op)
+        exits = sum(1 for st_, kind, data in H.events if kind == "exit" and g["start"] <= st_ <= g["end"])
+        if exits != max(0, len(g["pids_before"]) - new):
+            continue          # a worker left on its own during the call (its idle timer had fired just before)
+        if len(g["pids_after"]) != new:
+            v.append({"kind": "wrong_number_of_live_workers", "detail": f"resize {g['prev_max_workers']}->{new} returned with live "
+                      f"workers {g['pids_after']} (no worker timed out or died meanwhile)", "where": "count"})
+        kept = set(g["pids_before"]) & set(g["pids_after"])
+        want = min(len(g["pids_before"]), new)
+        if len(kept) != want:
+            v.append({"kind": "survivors_restarted", "detail": f"resize {g['prev_max_workers']}->{new}: workers before {g['pids_before']}, "
+                      f"after {g['pids_after']}: {len(kept)} kept, expected {want}", "where": "survivors"})
     return v
